@@ -93,8 +93,9 @@ def body_always_reports_or_exits(stmts):
         from ..engine import flow
         mf = flow.MustFlow(lambda x: {"reported"} if is_report_call(x) else set())
         mf.loop_stack = []
+        mf.ret_facts = []            # a `return` inside the handler is an exit too: it must come after the report
         out = mf.block(stmts, frozenset())
-        return out is flow.TOP or "reported" in out
+        return (out is flow.TOP or "reported" in out) and all("reported" in r for r in mf.ret_facts)
     for s in stmts:
         for n in ast.walk(s):
             if isinstance(n, ast.Call) and isinstance(n.func, ast.Attribute) and n.func.attr == "exit":
